@@ -17,7 +17,7 @@ RULE = ('seeded generator: seeds 0..2^32, signal levels 0..1e12 (Gaussian approx
 ASSUMPTIONS = ['statistical bounds are set at >= 7 sigma of the estimator (false-alarm probability < 1e-11 per test)',
                '"rejects" means raises an exception instead of returning a frame']
 PLAN = {'quick': {'gen': 8}, 'thorough': {'gen': 16, 'tests': 1, 'docs': 1}}
-REQUIRED_BUCKETS = ['shot:poisson', 'shot:gaussian', 'shot:reject-negative', 'shot:reject-huge', 'shot:reject-array',
+REQUIRED_BUCKETS = ['shot:poisson', 'shot:poisson-large', 'shot:gaussian', 'shot:reject-negative', 'shot:reject-huge', 'shot:reject-array',
                     'read_noise', 'read_noise:small-frames', 'read_noise:cube', 'dark:nofpn', 'dark:fpn', 'rule07', 'psd:square', 'psd:nonsquare', 'cosmic', 'cosmic:long-side', 'fresh-process']
 REQUIRED_ANCHORS = ['anchor:shot_noise', 'anchor:read_noise', 'anchor:dark_current', 'anchor:power_spectrum',
                     'anchor:_cosmic_ray', 'anchor:_nrays']
@@ -117,7 +117,19 @@ def workload(ctx, lentil):
         ctx.check(abs(m - lam) <= 7 * np.sqrt(lam / N) and abs(v - lam) <= 7 * np.sqrt((lam + 2 * lam ** 2) / N), 'poisson:moments',
                   'poisson|moments', 'Poisson shot noise does not have mean and variance equal to the signal (7 sigma)',
                   {'lam': lam, 'mean': m, 'var': v})
-        lam = float(10 ** rng.uniform(3, 15))          # well beyond 2**31 and 2**53-ish counts are legal signals
+        # the Poisson model over the whole documented range (up to 9.22e18 counts); moments are taken about the signal so that
+        # the sample variance is not lost to rounding
+        lam = float(10 ** rng.uniform(5, 18.9))
+        ctx.case({'poisson-moments-large': lam, 'seed': seed}, ['shot:poisson-large'])
+        x = np.asarray(D.shot_noise(np.full(N, lam).reshape(400, 500), 'poisson', seed=seed), float)
+        ctx.check(bool(np.all(x >= 0) and np.all(x == np.floor(x))), 'poisson:support', 'poisson|support|large',
+                  'Poisson shot noise is not non-negative and integer-valued', {'lam': lam})
+        d = x - lam
+        m, v = float(d.mean()), float(d.var(ddof=1))
+        ctx.check(abs(m) <= 1.0 + 7 * np.sqrt(lam / N) and abs(v - lam) <= 1.0 + 7 * lam * np.sqrt(2.0 / N), 'poisson:moments',
+                  'poisson|moments|large', 'Poisson shot noise of a large signal does not have mean and variance equal to the signal (7 sigma)',
+                  {'lam': lam, 'mean-lam': m, 'var': v})
+        lam = float(10 ** rng.uniform(3, 18.9))        # well beyond 2**31 and 2**53-ish counts are legal signals
         ctx.case({'gaussian-moments': lam, 'seed': seed}, ['shot:gaussian'])
         x = np.asarray(D.shot_noise(np.full(N, lam).reshape(500, 400), 'gaussian', seed=seed), float)
         ctx.check(bool(np.all(x >= 0) and np.all(x == np.floor(x))), 'gaussian:support', 'gaussian|support',
